@@ -37,6 +37,7 @@ func runC01(c *Ctx) {
 	c01PerInterface(c)
 	c01Pref64Lifetime(c)
 	c01PrepareKeepsConfig(c)
+	freshRA(c, "R-C01-5")
 	scratchAliasing(c, "R-C01-7", fnsInPkgs(c, "internal/plugin", "internal/config"), "an option built earlier (or the configuration itself) is overwritten when the next one is built")
 	// "exactly the options the configuration calls for … for every interface address list / loopback
 	// route list": the wildcard stanzas expand by the rules of C13–C15, which are shared here
@@ -982,4 +983,33 @@ func c01PrepareKeepsConfig(c *Ctx) {
 	}
 	c.R.Check(len(configured) >= 20, "R-C01-8", "plugin:configured-fields", "", "", fmt.Sprintf("%d plugin field(s) written by package config / New* constructors", len(configured)), ">= 20", "anchor-missing")
 	c.R.Check(n >= 6, "R-C01-8", "plugin:prepare-stores", "", "", fmt.Sprintf("%d store(s) through a Prepare receiver", n), ">= 6", "anchor-missing")
+}
+
+// freshRA (shared; R-C01-5 / R-C16-4 / R-C12-4): every RA the advertiser sends,
+// verifies against or reports is generated for that very use: each path of
+// buildRA that returns without an error returns result #0 of an
+// Interface.RouterAdvertisement call made on that path. An RA remembered from
+// an earlier call (a memo keyed on anything) is stale as soon as something it
+// depends on changes — the hardware address after a re-dial, the interface
+// addresses, the clock of a deprecated prefix or route, forwarding.
+func freshRA(c *Ctx, rule string) {
+	b := c.needMethod(rule, "internal/corerad", "Advertiser", "buildRA")
+	if b == nil {
+		return
+	}
+	n := 0
+	for _, p := range c.pathsO(rule, b, an.PathOpts{EmitCut: true}) {
+		if p.Ret == nil || len(p.Results) != 2 || !exprIsNil(p.Results[1]) {
+			continue
+		}
+		n++
+		bb, idx := stripExtract(p.Results[0])
+		gen := callsOnPath(p, func(cc *ssa.CallCommon) bool { return an.CallIs(cc, PkgConfig, "Interface", "RouterAdvertisement") })
+		ok := idx == 0 && exprCallIs(bb, PkgConfig, "Interface", "RouterAdvertisement") && len(gen) == 1
+		c.R.Check(ok, rule, c.fname(b)+":returns-freshly-generated-ra@"+pathShape(p), c.fname(b), c.pos(p.Ret.Pos()),
+			fmt.Sprintf("returns %s; %d RouterAdvertisement call(s) on the path", shortExpr(p.Results[0]), len(gen)),
+			"result #0 of the one ifi.RouterAdvertisement(forwarding) call made on this path",
+			"an RA built earlier is reused: it no longer reflects the hardware address, addresses, clock or forwarding state of this moment")
+	}
+	c.R.Check(n >= 1, rule, c.fname(b)+":success-paths", c.fname(b), c.pos(b.Pos()), fmt.Sprintf("%d returning path(s) without error", n), ">= 1", "anchor-missing")
 }
